@@ -72,3 +72,16 @@ Definition bcheck (tol : Q) (c : bcase) : bool * Z :=
   let one := Qeq_bool (fold_right Qplus 0 mp) 1 in
   let r := Qlists_close tol mp (bc_impl c) in
   (fst r && same && one, snd r).
+
+(** the same in software floats, for large numbers of individuals (exact rationals get too big):
+    partition form and power form both close to the implementation, sum close to one *)
+Record bdcase := { bd_n : nat; bd_p : nat; bd_a : Z * Z; bd_b : Z * Z; bd_impl : list (Z * Z) }.
+Definition bdcheck (tol : Q) (c : bdcase) : bool * Z :=
+  let a := ZZ2D (bd_a c) in let b := ZZ2D (bd_b c) in
+  let is := seq 0 (S (bd_n c * bd_p c)) in
+  let mp := map (fun i => bbconv i (bd_n c) a b (bd_p c)) is in
+  let mw := ppow (bb_table (bd_p c) a b) (bd_n c) in
+  let r1 := Dlists_close tol mp (z2D (bd_impl c)) in
+  let r2 := Dlists_close tol mw (z2D (bd_impl c)) in
+  let one := Dlists_close tol [nsum mw] [n1] in
+  (fst r1 && fst r2 && fst one, Z.max (snd r1) (snd r2)).
